@@ -186,8 +186,19 @@ let cost line =
   | [_; inp; _] -> if String.length inp > 6 && (inp.[0] = 'e' || inp.[0] = 's' || (inp.[0] = 'h' && inp.[1] <> 'h' && String.sub inp 0 5 <> "hash ")) then 60 else 1
   | _ -> 1
 
+(* vm_compute cross-check of the extraction: a hash case as a Gallina boolean that recomputes the
+   eight reference digests inside Coq and compares them with what the Go helpers returned *)
+let coq inp obs =
+  match split_ws inp with
+  | ["hash"; hx] ->
+    let o = split_ws obs in
+    if List.length o <> 8 || List.mem "err" o then None else
+    Some (Printf.sprintf "forallb (fun p => bytes_eqb (fst p) (snd p)) (combine (all_digests %s) [%s])"
+            (coq_bytes (bytes_of_hex hx)) (String.concat "; " (List.map (fun d -> coq_bytes (bytes_of_hex d)) o)))
+  | _ -> None
+
 let () =
-  if Array.length Sys.argv > 1 && Sys.argv.(1) = "--worker" then run_driver check
+  if Array.length Sys.argv > 1 && (Sys.argv.(1) = "--worker" || Sys.argv.(1) = "--coq") then run_driver ~coq check
   else begin
     let lines = List.filter (fun l -> l <> "") (read_lines stdin) in
     let total = List.fold_left (fun a l -> a + cost l) 0 lines in
